@@ -39,13 +39,14 @@ def strip (s : String) : String := String.ofList (stripChars s.toList)
 /-- decimal digits of a natural number, most significant first -/
 def digitChar (d : Nat) : Char := Char.ofNat ('0'.toNat + d)
 
-def natDigitsAux : Nat → Nat → List Char → List Char
-  | 0, _, acc => acc
-  | fuel + 1, n, acc =>
-    if n < 10 then digitChar n :: acc
-    else natDigitsAux fuel (n / 10) (digitChar (n % 10) :: acc)
+/-- decimal digits, least significant first (fuel-bounded structural recursion) -/
+def natDigitsRev : Nat → Nat → List Char
+  | 0, _ => []
+  | fuel + 1, n =>
+    if n < 10 then [digitChar n]
+    else digitChar (n % 10) :: natDigitsRev fuel (n / 10)
 
-def natDigits (n : Nat) : List Char := natDigitsAux (n + 1) n []
+def natDigits (n : Nat) : List Char := (natDigitsRev (n + 1) n).reverse
 
 def showNat (n : Nat) : String := String.ofList (natDigits n)
 def showInt (i : Int) : String :=
